@@ -24,6 +24,7 @@ TEXT = {
     "C12": ("model_checking", "every interleaving of the snapshot request with commits and FSM progress in the bounded model; on real code the .meta file is decoded after every step and compared with the ledger of committed configuration entries", "5.C12"),
     "C10": ("fault_enumeration", "a crash is armed at a verif hook point inside a handler (vote persisted, value file renamed/set, entries truncated / appended before and after flush, leader flush, snapshot published, log cleared, segment create/remove/sync points of the log package, bootstrap); when the real node reaches it the storage directory is copied as it is at that instant (completed file operations survive, unflushed tail lost), the node is buried and later restarted with the real New() on that image; TLC (RaftObs) judges the restart record: starts, term/vote not older than acknowledged, every acknowledged entry retained, log contiguous with the snapshot, and C01-C05 predicates on the rest of the run; whole-process crashes between steps are additionally exhausted in the bounded model (Inv_C10)", "5.C10"),
     "C15": ("model_checking", "death by assertion / nil dereference / out-of-range in the raft, FSM, snapshot and replication goroutines is an explicit outcome ('died') of the specification's actions (views invalidated by compaction, nil log views) and is observed on real nodes through recover() in the harness thread that plays each goroutine; every task submitted in a run must be complete, exactly once, after every node was shut down (ErrServerClosed for the pending ones)", "5.C15"),
+    "C07": ("model_checking", "updates, reads, barriers and dirty reads are client operations of Raft.tla (leader queue with non-log entries answered at commit, FSM goroutine answering dirty reads on any node, definitive and ambiguous failures at leader release / shutdown); a client ledger (submission clock, completions with result and position, pending reads with the updates the leader had accepted) is maintained by the same TLA+ operators on model states and on records of real runs; judged: a completed update sits at the reported position of the completing node's state machine, no update is applied twice, definitively rejected updates never appear in any state machine, an update completed before another was submitted precedes it everywhere, a leader's read/barrier answer contains every update that leader had accepted, every read result (dirty reads included) is a prefix of the committed updates; task outcomes (operation, result, position, read contents) are also compared step by step in trace validation", "5.C07"),
     "C16": ("model_checking", "the transfer task, target choice (given / any in Go map order / invalid), the timeout-now RPC with loss of request or reply, the transfer and new-term timers as always-enabled actions, rejection of entries and membership changes while in progress, and the reply at leader release are actions of Raft.tla; bounded exhaustive on 2-voter clusters, guard-off attack schedules, TLC-simulated and randomized schedules with transfers replayed on real nodes; TLC judges: success only after the old leader stepped down to a higher term, successor is a voter holding the whole log (observed at the instant timeout-now is sent), log does not grow during a transfer, one leader per term, and convergence of a fair continuation after failed transfers", "5.C16"),
     "C17": ("model_checking", "(a) stickiness: a follower that knows a leader neither grants nor raises its term on a non-transfer vote request - action property on spec steps (bounded exhaustive) and on observed real steps; (b) convergence: random fault histories on real nodes (crashes, failed connections, snapshots, membership changes) are followed by a fair, fault-free continuation driven round-robin; within 60 rounds a leader must exist and a fresh update must be applied on every running member; the whole run is validated against Raft.tla", "5.C17"),
     "C19": ("model_checking", "ordering and monotonicity of (term, commit, applied, snapshot, config indexes) on every state of the bounded model and every observed real state", "5.C19"),
@@ -86,6 +87,7 @@ for p in props:
     NOTE = {
         "C10": "crash points = the verif hook points (source level, between storage operations of raft and log packages), not every machine instruction; process-crash model (completed file operations survive); crash-point runs are judged by the property operators only (not trace-validated); power loss of the log is C14",
         "C15": "data races, concurrent map access and goroutine deadlocks of the real scheduler are NOT decided: the deterministic harness runs every goroutine's code on one thread; transfers (C16) are not part of the schedules",
+        "C07": "one client operation per step (batches of several operations in one newEntry chain are not generated); linearizability across leaders is not claimed by the property (reads are answered by a leader without a quorum round) and not checked; histories come from the deterministic harness, not from concurrent client goroutines",
         "C16": "timers are replaced by always-enabled timeout actions (no real time); 'leaves the cluster able to keep or elect a leader' is checked as bounded convergence of a fair continuation; exhaustive part limited to 2 voters (3-node configuration only in the thorough tier, time-capped)",
         "C17": "liveness is checked as bounded convergence of a fair deterministic continuation (timers replaced by an oracle that fires one election timeout at a time while nobody leads), not as a temporal property over real time; 'bounded number of election timeouts' = at most 60 scheduler rounds",
     }
